@@ -628,6 +628,9 @@ func (p *GatedPipe) Fail() {
 	}
 }
 
+// Failed reports whether Fail was called.
+func (p *GatedPipe) Failed() bool { p.mu.Lock(); defer p.mu.Unlock(); return p.failed }
+
 // Push appends bytes to this endpoint's inbound queue (raw peer).
 func (p *GatedPipe) Push(b []byte) {
 	p.mu.Lock()
